@@ -535,4 +535,116 @@ theorem endFile_ok {P : Params} (hP : P.ans = serialAns) (hc : CodecOk P.codec) 
           obtain ⟨_, _, _, e4, e5⟩ := e
           simp only [Proc.fe, feEnd, e4, e5]
 
+/-! ### one file, all files -/
+
+theorem feAppendGo_beginCalled (B : Nat) : ∀ (fuel : Nat) (f : Front) (data : Bytes) (r : Front × List Blk),
+    feAppendGo B fuel f data = some r → r.1.beginCalled = f.beginCalled := by
+  intro fuel
+  induction fuel with
+  | zero => intro f data r h; simp [feAppendGo] at h
+  | succ fuel ih =>
+    intro f data r h
+    unfold feAppendGo at h
+    by_cases hd0 : data.length = 0
+    · rw [if_pos hd0] at h
+      cases hcur : f.blkCurrent with
+      | none => rw [hcur] at h; cases h
+      | some c =>
+        rw [hcur] at h
+        simp only at h
+        by_cases hfull : c.data.length = B
+        · rw [if_pos hfull] at h; simp only [Option.some.injEq] at h; rw [← h]
+        · rw [if_neg hfull] at h; simp only [Option.some.injEq] at h; rw [← h]
+    · rw [if_neg hd0] at h
+      cases hcur : f.blkCurrent with
+      | none =>
+        rw [hcur] at h
+        have := ih _ _ _ h
+        exact this
+      | some c =>
+        rw [hcur] at h
+        simp only at h
+        by_cases hdiff : B - c.data.length = 0
+        · rw [if_pos hdiff] at h
+          cases hrec : feAppendGo B fuel { f with blkCurrent := none } data with
+          | none => rw [hrec] at h; cases h
+          | some r' =>
+            rw [hrec] at h
+            simp only [Option.some.injEq] at h
+            rw [← h]
+            have := ih _ _ _ hrec
+            exact this
+        · rw [if_neg hdiff] at h
+          have := ih _ _ _ h
+          exact this
+
+theorem feAppend_beginCalled {B : Nat} {f : Front} {data : Bytes} {f' : Front} {em : List Blk}
+    (h : feAppend B f data = some (f', em)) (hb : f.beginCalled = true) (hx : f'.beginCalled = false) : False := by
+  have := feAppendGo_beginCalled B _ f data _ h
+  simp only at this
+  rw [hb, hx] at this
+  cases this
+
+theorem packFile_ok {P : Params} (hP : P.ans = serialAns) (hc : CodecOk P.codec) (hB : P.B < 2 ^ 24) (hBpos : 0 < P.B)
+    {s : Proc} {g : Ghost} {W : WSt} (h : PInv P s g 0 W) (hfe : FrontInv P.B s.fe g.front s.w.inodes.length)
+    (hidle : s.beginCalled = false) (hfin : g.fin = false) (f : InFile) (hfl : f.flags &&& blkUserSettable = f.flags) :
+    ∃ s' g' W' items, packFile P s f = .ok s' ∧ feFile P.B s.w.inodes.length f = .ok items ∧
+      g'.front = g.front ++ items ∧
+      g'.fe = g.fe ++ (if f.data.length = 0 then [] else [⟨s.w.inodes.length, .size f.data.length⟩]) ∧
+      PInv P s' g' 0 W' ∧ FrontInv P.B s'.fe g'.front s'.w.inodes.length ∧ s'.beginCalled = false ∧ g'.fin = false ∧
+      s'.w.inodes.length = s.w.inodes.length + 1 ∧ s'.maxBacklog = s.maxBacklog := by
+  obtain ⟨hi1, hi2, _⟩ := hfe.idle hidle
+  obtain ⟨s1, hb, h1, hfe1, hfeq, hil1, hmb1⟩ := beginFile_ok hc h hfe hidle f.flags hfl
+  have hf0 : s1.fe = feBegin {} s.w.inodes.length f.flags := by
+    rw [hfeq]
+    simp only [feBegin, Front.mk.injEq]
+    exact ⟨trivial, trivial, trivial, trivial, hi2⟩
+  have hbc1 : s1.beginCalled = true := by
+    have : s1.fe.beginCalled = true := by rw [hf0]; rfl
+    exact this
+  have hcur1 : s1.blkCurrent = none := by
+    have : s1.fe.blkCurrent = none := by rw [hf0]; rfl
+    exact this
+  have hflok : ¬ (f.flags &&& blkUserSettable != f.flags) = true := by simp [hfl]
+  unfold packFile feFile
+  rw [hb, if_neg hflok]
+  simp only
+  by_cases hd0 : f.data.length = 0
+  · rw [if_pos hd0, if_pos hd0]
+    obtain ⟨s', g', W', he, hinv', hfe', hfend, hfront, hgfe, hgfin, hil, hmb⟩ := endFile_ok hP hc hB h1 hfe1 hbc1 hfin
+      (fun c hc' => by rw [hcur1] at hc'; cases hc')
+    refine ⟨s', g', W', _, he, rfl, ?_, ?_, hinv', hfe', ?_, hgfin, hil.trans hil1, hmb.trans hmb1⟩
+    · rw [hfront, hf0]
+    · rw [hgfe]; simp [hd0]
+    · have : s'.fe.beginCalled = false := by rw [hfend]; rfl
+      exact this
+  · rw [if_neg hd0, if_neg hd0]
+    have hdne : f.data ≠ [] := fun he => hd0 (by simp [he])
+    obtain ⟨s2, g2, W2, em, id, ha, hfa, hino, hidl, hfront2, hgfe2, hinv2, hfe2, hgfin2, hil2, hmb2, hcne2⟩ :=
+      append_ok hP hc hB hBpos h1 hfe1 hbc1 hfin f.data hdne
+    rw [ha]
+    simp only
+    rw [hf0] at hfa
+    rw [hfa]
+    simp only
+    have hbc2 : s2.beginCalled = true := by
+      have hb2 := hfe2.idle
+      by_cases hx : s2.beginCalled = true
+      · exact hx
+      · exfalso
+        have hx' : s2.fe.beginCalled = false := by
+          show s2.beginCalled = false
+          simpa using hx
+        -- `append` never ends a file: the front end mirror keeps `begin_called`
+        exact feAppend_beginCalled hfa (by rfl) hx'
+    obtain ⟨s', g', W', he, hinv', hfe', hfend, hfront, hgfe, hgfin, hil, hmb⟩ := endFile_ok hP hc hB hinv2 hfe2 hbc2 hgfin2 hcne2
+    have hidn : id = s.w.inodes.length := by omega
+    refine ⟨s', g', W', _, he, rfl, ?_, ?_, hinv', hfe', ?_, hgfin, ?_, ?_⟩
+    · rw [hfront, hfront2, List.append_assoc]
+    · rw [hgfe, hgfe2, hidn]; simp [hd0]
+    · have : s'.fe.beginCalled = false := by rw [hfend]; rfl
+      exact this
+    · rw [hil, hil2, hil1]
+    · rw [hmb, hmb2, hmb1]
+
 end Sqfs.BlockProc
